@@ -566,12 +566,11 @@ class FileStoragePacker(FileStorageFormatter):
                         is_dup = (
                             rpos and self._read_data_header(rpos).tid == h.tid)
                         if not is_dup:
-                            if h.oid not in self.gc.reachable:
-                                self.blob_removed.write(
-                                    binascii.hexlify(h.oid) + b'\n')
-                            else:
-                                self.blob_removed.write(
-                                    binascii.hexlify(h.oid + h.tid) + b'\n')
+                            # Always the revision, never the bare oid (= the
+                            # whole directory): the object may have been
+                            # written again after the pack time.
+                            self.blob_removed.write(
+                                binascii.hexlify(h.oid + h.tid) + b'\n')
 
                 pos += h.recordlen()
                 continue
